@@ -6,7 +6,7 @@ import json, os, subprocess
 
 ROOT = os.path.dirname(os.path.dirname(os.path.abspath(__file__)))
 
-HOOK_COMMITS = ["8ee60bb"]
+HOOK_COMMITS = ["8ee60bb", "f435b2c"]
 
 P = {
  "C01": dict(ready=True, technique="runtime monitoring: hostile-traffic workload through the real listener engine with panic/fatal-error, watchdog, lock-probe and state-snapshot monitors",
